@@ -6,6 +6,10 @@
 # /verif/seeded/<Cxx>-<k>/ (patch.diff, demo_test.go, notes.md, meta.json).
 id=$1; k=$2; tier=${3:-quick}
 src=/tmp/seed_$id/_out
+prop=$id
+# cross-cutting seeds (directories X1..X8) name the property they break in the first line of their notes
+case "$id" in X*) prop=$(grep -m1 -oE 'PROPERTY: *C[0-9]+' $src/notes$k.md | grep -oE 'C[0-9]+');; esac
+[ -n "$prop" ] || { echo "no property for $id-$k"; exit 3; }
 cd "$(dirname "$0")/.."
 export GOFLAGS=-mod=mod GOPROXY=off GOSUMDB=off GOTOOLCHAIN=local
 [ -f $src/mutant$k.diff ] || { echo "no $src/mutant$k.diff"; exit 3; }
@@ -25,7 +29,7 @@ rundemo; mut_rc=$?
 suite=$(tools/baseline_check.sh $wt 2>&1 | head -1)
 git -C $wt checkout -q -- . 
 echo "$id-$k: demo on clean tree rc=$clean_rc (want 0), with change rc=$mut_rc (want !=0), suite: $suite"
-out=$(tools/mutant_run.sh $src/mutant$k.diff $tier $id 2>&1)
+out=$(tools/mutant_run.sh $src/mutant$k.diff $tier $prop 2>&1)
 caught=$(echo "$out" | grep '^CAUGHT-BY:' | sed 's/CAUGHT-BY://')
 first="$out"
 if [ -z "$(echo $caught)" ]; then
@@ -36,12 +40,12 @@ echo "$out" | grep -E "rc=1|CAUGHT|INCONCL" | cut -c1-200
 dst=seeded/$id-$k; mkdir -p $dst
 cp $src/mutant$k.diff $dst/patch.diff; cp $src/demo${k}_test.go $dst/demo_test.go; cp $src/notes$k.md $dst/notes.md 2>/dev/null
 echo "$out" | grep -A3 -m1 '^VIOLATION' | cut -c1-400 > $dst/first_violation.txt
-python3 - "$id" "$k" "$clean_rc" "$mut_rc" "$suite" "$caught" "$dir" "$tests" "$tier" "$race" <<'PY'
+python3 - "$id" "$k" "$clean_rc" "$mut_rc" "$suite" "$caught" "$dir" "$tests" "$tier" "$race" "$prop" <<'PY'
 import json,sys,os
-id,k,clean,mut,suite,caught,d,tests,tier,race=sys.argv[1:11]
+id,k,clean,mut,suite,caught,d,tests,tier,race,prop=sys.argv[1:12]
 prev=json.load(open(f"/verif/seeded/{id}-{k}/meta.json")) if os.path.exists(f"/verif/seeded/{id}-{k}/meta.json") else {}
 notes=open(f"/verif/seeded/{id}-{k}/notes.md").read() if os.path.exists(f"/verif/seeded/{id}-{k}/notes.md") else ""
-meta={"breaks_property":id,"origin":"independent sub-agent given only the property text and a scratch worktree",
+meta={"breaks_property":prop,"origin":"independent sub-agent given only the property text and a scratch worktree",
  "needs_to_manifest":"see notes.md (written by the sub-agent)",
  "confirmed":{"applies_and_builds":True,"repository_suite_with_change":suite,"demo_package_dir":d,"demo_tests":tests,
    "demo_on_clean_tree_exit":int(clean),"demo_with_change_exit":int(mut),"demo_flags":race},
